@@ -958,6 +958,10 @@ func (g *HistGen) genBatchGet() {
 		for i := 0; i < 1+g.r.Intn(5); i++ {
 			tk.Keys = append(tk.Keys, g.knownKey(t))
 		}
+		if g.r.Chance(g.p.BadPct) {
+			// a key that lacks an attribute or gives it another type: the request is invalid as a whole
+			tk.Keys = append(tk.Keys, g.badKey(t))
+		}
 		op.GReqs = append(op.GReqs, tk)
 	}
 	if g.r.Chance(g.p.BadPct / 2) {
